@@ -36,7 +36,7 @@ def shape_strategy(big):
     comp = st.fixed_dictionaries({
         "kind": st.just("compress"),
         "chunks": st.one_of(st.integers(0, 12), st.integers(0, 40 if big else 16)),
-        "tail": st.integers(0, 99999),
+        "tail": st.one_of(st.just(0), st.just(0), st.integers(0, 99999)),
         "fam": st.sampled_from(["rand", "text", "expand", "runs", "zeros"]),
         "seq": st.booleans(),
         "seed": st.integers(0, 10**6),
@@ -44,7 +44,8 @@ def shape_strategy(big):
     dec = st.fixed_dictionaries({
         "kind": st.just("decompress"),
         "blocks": st.one_of(st.integers(1, 8), st.integers(1, 60 if big else 24)),
-        "fam": st.sampled_from(["tiny", "mid", "runheavy", "flood", "flood-runs", "trunc", "multistream", "dense"]),
+        "fam": st.sampled_from(["tiny", "mid", "runheavy", "flood", "flood-runs", "trunc", "multistream", "dense",
+                                "garbage-tail", "exact-size"]),
         "ing": st.sampled_from([None, None, 4, 8, 64, 1024, 65536]),
         "outg": st.sampled_from([None, None, 1, 7, 100, 5000, 100000]),
         "seed": st.integers(0, 10**6),
@@ -75,6 +76,7 @@ def build_input(exe, sh):
     import random
     r = random.Random(sh["seed"])
     if sh["kind"] == "compress":
+        # tail 0: the input is an exact multiple of the chunk size, end of input is found by an extra, empty read()
         n = sh["chunks"] * 100000 + (sh["tail"] if sh["chunks"] or sh["tail"] % 3 else 0)
         fam = sh["fam"]
         if fam == "rand":
@@ -144,6 +146,24 @@ def build_input(exe, sh):
             parts.append(bytes(p) + bytes(r.choices(al, k=r.choice([0, 0, 3, 40]))))
         z = b"".join(bz2.compress(p, 1 + i % 9) for i, p in enumerate(parts))
         d = b"".join(parts)
+    elif fam in ("garbage-tail", "exact-size"):
+        # a valid stream followed by ignorable garbage that reaches into later input blocks (the parser finishes while
+        # the reader is still delivering), or padded so that the input ends exactly at an input-block edge (end of
+        # input is then found by an extra, empty read)
+        d = plain.seg_bytes(("text", 2000 * min(nb, 10), sh["seed"]))
+        z = bz2.compress(d, 1)
+        g = sh.get("ing") or 4096
+        g = max(g, 256)
+        if fam == "garbage-tail":
+            # for callers that feed a pipe: stall at the first input-block edge (4 + k*g) behind the end of the valid
+            # stream, so that the block in which the parser meets the garbage is delivered and the next one is not
+            kk = (len(z) + 8 - 4 + g - 1) // g
+            env["VERIF_STALL_AT"] = str(4 + kk * g + r.choice([0, 0, 0, 1, g // 2]))
+            z += b"\x00garbage" + r.randbytes(g * r.choice([1, 2, 3, 5]) + r.randrange(g))
+        else:
+            k = (len(z) - 4 + g - 1) // g + r.choice([0, 1])
+            z += b"\x00" * (4 + k * g - len(z))
+        sh = dict(sh, ing=None, dense_granul=g)
     elif fam == "runheavy":
         segs = []
         for _ in range(min(nb, 12)):
